@@ -364,7 +364,12 @@ class Gen(object):
         n = self.pick_var(scope)
         # CPython evaluates the annotation after the assignment (known finding, covered by a witness):
         # the generator steers clear of reading the target there
-        ann = self.readable(scope, (n,)) if self.rng.random() < 0.5 else 'v'
+        r = self.rng.random()
+        if r < 0.2 and scope.kind in ('module', 'class'):
+            ann = n       # evaluated after the assignment at module/class level: reads the value just bound
+            self.features.add('annotation_reads_own_target')
+        else:
+            ann = self.readable(scope, (n,)) if r < 0.6 else 'v'
         self.emit(ind, '%s: %s = %s' % (n, ann, self.expr(scope)))
         scope.add(n)
         self.features.add('annotated')
